@@ -340,7 +340,48 @@ Fixpoint phylip_seq_go (cache : option (str * list str)) (lines : list str) : pr
       end
   end.
 
-(** MinimalPhylipParser; [None] = the interleaved branch (header with more than two fields), not modelled *)
+(** _split_line(line, id_offset) for any offset *)
+Definition phylip_split_line_off (off : nat) (line : str) : str * str :=
+  if all_space line then ([], [])
+  else (strip (firstn off line), filter (fun c => negb (c =? SP)) (strip (skipn off line))).
+
+(** [l[ix] = f(l[ix])] *)
+Fixpoint upd_nth {A} (ix : nat) (f : A -> A) (l : list A) : list A :=
+  match l with
+  | [] => []
+  | x :: t => match ix with O => f x :: t | S k => x :: upd_nth k f t end
+  end.
+
+(** the [interleaved] loop of MinimalPhylipParser.  [cache] is seq_cache / interleaved_id_map: the keys are
+    inserted in the order 0, 1, 2, ... (curr_ct grows by one), so the dict is the list of (id, parts) by index *)
+Fixpoint phylip_il_go (num_seqs id_offset ct : nat) (cache : list (str * list str)) (lines : list str)
+  : list (str * list str) :=
+  match lines with
+  | [] => cache
+  | line :: rest =>
+      let '(i, s) := phylip_split_line_off id_offset line in
+      match i, s with
+      | [], [] => phylip_il_go num_seqs id_offset ct cache rest
+      | _, _ =>
+          let ix := Nat.modulo ct num_seqs in
+          let off' := if Nat.eqb (Nat.modulo (S ct) num_seqs) 0 then O else id_offset in
+          let cache' := if (ix <? length cache)%nat
+                        then upd_nth ix (fun e => (fst e, snd e ++ [s])) cache
+                        else cache ++ [(i, [s])] in
+          phylip_il_go num_seqs off' (S ct) cache' rest
+      end
+  end.
+
+(** the final loop: join, check the length against the header, yield *)
+Fixpoint phylip_il_out (seq_len : nat) (cache : list (str * list str)) : pres :=
+  match cache with
+  | [] => POk []
+  | (i, parts) :: t =>
+      let j := concat parts in
+      if Nat.eqb (length j) seq_len then pcons (i, j) (phylip_il_out seq_len t) else PErr 9
+  end.
+
+(** MinimalPhylipParser (always [Some]; the option is kept for the callers) *)
 Definition phylip_parser (lines : list str) : option pres :=
   match lines with
   | [] => Some (POk [])
@@ -350,10 +391,40 @@ Definition phylip_parser (lines : list str) : option pres :=
       | inl None => Some (PErr 2)
       | inl (Some (n, m, il)) =>
           if (Nat.eqb n 0) || (Nat.eqb m 0) then Some (POk [])
-          else if il then None
+          else if il then Some (phylip_il_out m (phylip_il_go n 10 0 [] rest))
           else Some (phylip_seq_go None rest)
       end
   end.
+
+(** the INTERLEAVED rendering of an alignment as the PHYLIP format defines it (cogent3's writer only emits the
+    sequential one): header "n  m I"; first block: padded name + first slice of every sequence; then, after an
+    empty line, one block per further slice, lines indented by ten blanks *)
+Fixpoint il_rows (k : nat) (bss : list (list str)) : list (list str) :=
+  match k with
+  | O => []
+  | S k' => map (hd []) bss :: il_rows k' (map (@tl str) bss)
+  end.
+
+Fixpoint map2 {A B C} (f : A -> B -> C) (la : list A) (lb : list B) : list C :=
+  match la, lb with
+  | a :: ta, b :: tb => f a b :: map2 f ta tb
+  | _, _ => []
+  end.
+
+Definition il_header (recs : list rec) : str := header_line recs ++ [SP; 73].
+
+Definition phylip_interleaved_lines (w : nat) (recs : list rec) : list str :=
+  let m := align_length recs in
+  let bss := map (fun r => blocks_go (S m) w (snd r)) recs in
+  let k := match bss with [] => O | bs :: _ => length bs end in
+  match il_rows k bss with
+  | [] => [il_header recs]
+  | row0 :: rows =>
+      il_header recs :: map2 (fun r b => pad10 (fst r) ++ b) recs row0
+        ++ flat_map (fun row => [] :: map (app (repeat SP 10)) row) rows
+  end.
+Definition phylip_interleaved_write (w : nat) (recs : list rec) : str :=
+  join_lines (phylip_interleaved_lines w recs).
 
 (** PamlParser *)
 Fixpoint paml_go (seq_len num_seqs : nat) (seqname : option str) (cur : list str) (cur_len : nat) (n : nat)
@@ -416,3 +487,249 @@ Fixpoint chunks_go (fuel : nat) (n : nat) (s : str) : list str :=
            end
   end.
 Definition chunks_of (n : nat) (s : str) : list str := chunks_go (length s) n s.
+
+(* ------------------------------------------------------------------ GenBank *)
+(** parse/genbank.py:  MinimalGenbankParser (line based: GbFinder + indent_splitter + handlers) -> [gb_lines_parser]
+                       iter_genbank_records(bytes) / minimal_parser / rich_parser (bytes based)   -> [gb_bytes_parser]
+    observed: (locus, sequence) of every record.  The handlers SOURCE / REFERENCE / FEATURES are not modelled
+    ([GUnsupported]). *)
+
+Definition rstrip (s : str) : str := rstrip_by is_space s.
+Definition lstrip (s : str) : str := lstrip_by is_space s.
+Definition SLASH : Z := 47.
+Definition s_origin : str := [79; 82; 73; 71; 73; 78].          (* "ORIGIN" *)
+Definition s_locus : str := [76; 79; 67; 85; 83].               (* "LOCUS" *)
+
+(** GbFinder = DelimitedRecordFinder("//", constructor=rstrip): (records, lines left after the last "//") *)
+Fixpoint gb_finder (cur : list str) (lines : list str) : list (list str) * list str :=
+  match lines with
+  | [] => ([], cur)
+  | l0 :: rest =>
+      let l := rstrip l0 in
+      match l with
+      | [] => gb_finder cur rest
+      | _ => if str_eqb l [SLASH; SLASH]
+             then let rl := gb_finder [] rest in ((cur ++ [l]) :: fst rl, snd rl)
+             else gb_finder (cur ++ [l]) rest
+      end
+  end.
+
+(** indent_splitter *)
+Definition indent_of (l : str) : nat := (length l - length (lstrip l))%nat.
+
+Fixpoint indent_split (indent : nat) (cur : list str) (lines : list str) : list (list str) :=
+  match lines with
+  | [] => match cur with [] => [] | _ => [cur] end
+  | l0 :: rest =>
+      let l := rstrip l0 in
+      match l with
+      | [] => indent_split indent cur rest
+      | _ => if (indent <? length l)%nat && is_space (nth indent l 0)
+             then indent_split indent (cur ++ [l]) rest
+             else cur :: indent_split indent [l] rest
+      end
+  end.
+
+Fixpoint indent_splitter (lines : list str) : list (list str) :=
+  match lines with
+  | [] => []
+  | l0 :: rest =>
+      let l := rstrip l0 in
+      match l with
+      | [] => indent_splitter rest
+      | _ => indent_split (indent_of l) [l] rest
+      end
+  end.
+
+(** parse_sequence: every line not starting with "ORIGIN", without digits, blank, tab, newline, CR, '/' *)
+Definition gb_seq_clean (l : str) : str :=
+  filter (fun c => negb (((48 <=? c) && (c <=? 57)) || (c =? 32) || (c =? 9) || (c =? 10) || (c =? 13) || (c =? SLASH))) l.
+Definition gb_parse_sequence (lines : list str) : str :=
+  concat (map gb_seq_clean (filter (fun l => negb (startswith l s_origin)) lines)).
+
+(** str.join(" ", map(strip, lines)) *)
+Fixpoint join_sp (ls : list str) : str :=
+  match ls with
+  | [] => []
+  | [l] => l
+  | l :: t => l ++ SP :: join_sp t
+  end.
+
+Inductive gb_step := GOk (locus seq : option str) | GExc | GUnsupported.
+
+Definition s_double_slash : str := [SLASH; SLASH].
+Definition s_source : str := [83; 79; 85; 82; 67; 69].
+Definition s_reference : str := [82; 69; 70; 69; 82; 69; 78; 67; 69].
+Definition s_features : str := [70; 69; 65; 84; 85; 82; 69; 83].
+Definition s_locus_lc : str := [108; 111; 99; 117; 115].
+Definition s_sequence_lc : str := [115; 101; 113; 117; 101; 110; 99; 101].
+
+(** one field (block of lines) through its handler *)
+Definition gb_handle (field : list str) (locus seq : option str) : gb_step :=
+  match field with
+  | [] => GOk locus seq
+  | l0 :: _ =>
+      match split_ws l0 with
+      | [] => GExc                                          (* field[0].split(None, 1)[0] *)
+      | w :: toks =>
+          if str_eqb w s_locus then
+            (* parse_locus: dict(zip(fields, line.split())), int(result["length"]) *)
+            match toks with
+            | nm :: len :: _ => match parse_nat len with Some _ => GOk (Some nm) seq | None => GExc end
+            | _ => GExc
+            end
+          else if str_eqb w s_origin then GOk locus (Some (gb_parse_sequence field))
+          else if str_eqb w s_double_slash || str_eqb w [63] then GOk locus seq
+          else if str_eqb w s_source || str_eqb w s_reference || str_eqb w s_features then GUnsupported
+          else
+            (* generic_adaptor: curr[label.lower()] = " ".join(map(strip, lines)) *)
+            let v := join_sp (map strip field) in
+            let lab := ascii_lower w in
+            if str_eqb lab s_locus_lc then GOk (Some v) seq
+            else if str_eqb lab s_sequence_lc then GOk locus (Some v)
+            else GOk locus seq
+      end
+  end.
+
+Fixpoint gb_fields (fields : list (list str)) (locus seq : option str) : gb_step :=
+  match fields with
+  | [] => GOk locus seq
+  | f :: rest => match gb_handle f locus seq with
+                 | GOk l s => gb_fields rest l s
+                 | other => other
+                 end
+  end.
+
+Inductive gb_res :=
+| GRecs (l : list (option str * option str))
+| GErr (code : Z)
+| GUnsup.
+
+Fixpoint gb_records (recs : list (list str)) : option (list (option str * option str)) :=
+  match recs with
+  | [] => Some []
+  | r :: rest =>
+      match gb_fields (indent_splitter r) None None, gb_records rest with
+      | GUnsupported, _ => None
+      | _, None => None
+      | GOk l s, Some t => Some ((l, s) :: t)
+      | GExc, Some t => Some t                         (* bad_record: skipped *)
+      end
+  end.
+
+(** MinimalGenbankParser(lines) as list(...): RecordError when lines follow the last "//" *)
+Definition gb_lines_parser (lines : list str) : gb_res :=
+  let rl := gb_finder [] lines in
+  match gb_records (fst rl) with
+  | None => GUnsup
+  | Some l => match snd rl with [] => GRecs l | _ => GErr 9 end
+  end.
+
+(** bytes.split(sep) for a non-empty separator *)
+Fixpoint split_sep (sep : str) (skip : nat) (s : str) : list str :=
+  match s with
+  | [] => [[]]
+  | c :: t =>
+      match skip with
+      | S k => split_sep sep k t
+      | O => if startswith s sep then [] :: split_sep sep (pred (length sep)) t
+             else match split_sep sep O t with
+                  | [] => [[c]]
+                  | w :: ws => (c :: w) :: ws
+                  end
+      end
+  end.
+
+(** bytes.split() *)
+Fixpoint split_bws_go (cur : str) (s : str) : list str :=
+  match s with
+  | [] => match cur with [] => [] | _ => [rev cur] end
+  | c :: t => if is_bspace c then (match cur with [] => split_bws_go [] t | _ => rev cur :: split_bws_go [] t end)
+              else split_bws_go (c :: cur) t
+  end.
+Definition split_bws (s : str) : list str := split_bws_go [] s.
+
+(** default_seq_converter: delete "\n\r\t 0123456789", a-z -> A-Z *)
+Definition gb_converter (s : str) : str :=
+  ascii_upper (filter (fun c => negb ((c =? 10) || (c =? 13) || (c =? 9) || (c =? 32) || ((48 <=? c) && (c <=? 57)))) s).
+
+Definition s_nl_slashes : str := [NL; SLASH; SLASH].
+Definition s_nl_origin : str := NL :: s_origin.
+
+(** features[: features.find(b"\n")] *)
+Definition first_line_py (f : str) : str :=
+  match split1 NL f with Some (a, _) => a | None => removelast f end.
+
+(** one record of iter_genbank_records + the locus / sequence keys minimal_parser ends up with
+    ({"locus": locus, "sequence": seq, **default_parse_metadata(features)}) *)
+Definition gb_bytes_record (record : str) : gb_res :=
+  match split_sep s_nl_origin O record with
+  | [features; seq] =>
+      match split_bws (first_line_py features) with
+      | _ :: locus :: _ =>
+          let sq := gb_converter seq in
+          match gb_fields (indent_splitter (py_splitlines features)) None None with
+          | GUnsupported => GUnsup
+          | GExc => GRecs [(Some locus, Some sq)]
+          | GOk l s => GRecs [(Some (match l with Some x => x | None => locus end),
+                              Some (match s with Some x => x | None => sq end))]
+          end
+      | _ => GErr 1
+      end
+  | _ => GErr 2
+  end.
+
+Definition bytes_isspace (s : str) : bool := match s with [] => false | _ => forallb is_bspace s end.
+
+Fixpoint gb_bytes_go (fixed : bool) (pieces : list str) : gb_res :=
+  match pieces with
+  | [] => GRecs []
+  | p :: rest =>
+      let p' := if fixed then lstrip_by is_bspace p else p in
+      if (if fixed then match p' with [] => true | _ => false end else bytes_isspace p) then gb_bytes_go fixed rest
+      else match gb_bytes_record p' with
+           | GRecs l => match gb_bytes_go fixed rest with
+                        | GRecs t => GRecs (l ++ t)
+                        | other => other
+                        end
+           | other => other
+           end
+  end.
+
+(** list(minimal_parser(data: bytes)); [fixed] = the source variant that strips leading white space of a record
+    (proposed fix C06-7) *)
+Definition gb_bytes_parser (fixed : bool) (data : str) : gb_res :=
+  gb_bytes_go fixed (split_sep s_nl_slashes O data).
+
+(** rendering of a GenBank flat file as the format defines it (for the theorems and as generated input):
+    LOCUS line, optional one-line fields, ORIGIN, lines of 6 groups of 10 residues numbered from 1, "//" *)
+Definition right_align (w : nat) (s : str) : str := repeat SP (w - length s) ++ s.
+
+Fixpoint gb_groups (fuel : nat) (s : str) : str :=
+  match fuel with
+  | O => []
+  | S f => match s with
+           | [] => []
+           | _ => SP :: firstn 10 s ++ gb_groups f (skipn 10 s)
+           end
+  end.
+
+Fixpoint gb_origin_lines (fuel : nat) (pos : nat) (s : str) : list str :=
+  match fuel with
+  | O => []
+  | S f => match s with
+           | [] => []
+           | _ => (right_align 9 (dec pos) ++ gb_groups 6 (firstn 60 s)) :: gb_origin_lines f (pos + 60) (skipn 60 s)
+           end
+  end.
+
+Record gb_rec := { gb_name : str; gb_extra : list str; gb_seq : str }.
+
+Definition gb_locus_of (name : str) (n : nat) : str :=
+  s_locus ++ repeat SP 7 ++ name ++ [SP] ++ dec n ++ [SP; 98; 112; SP; SP; SP; SP; 68; 78; 65].
+Definition gb_locus_line (r : gb_rec) : str := gb_locus_of (gb_name r) (length (gb_seq r)).
+
+Definition gb_record_lines (r : gb_rec) : list str :=
+  gb_locus_line r :: gb_extra r ++ s_origin :: gb_origin_lines (S (length (gb_seq r))) 1 (gb_seq r) ++ [s_double_slash].
+
+Definition gb_write (recs : list gb_rec) : str := join_lines (flat_map gb_record_lines recs).
